@@ -15,4 +15,4 @@ try:
 except af.exc.PriorLimitException as e:
     top = "PriorLimitException: %s" % e
 print("cell 0 value_for(1.0):", top)
-print("VIOLATION: every cell reports the centre of the whole prior" if len(set(means)) == 1 else "no violation: each cell reports its own centre (repaired)")
+print("VIOLATION: every cell reports the centre of the whole prior" if len(set(means)) == 1 else "no violation: each cell reports its own centre (repaired in /repo, d755794)")
